@@ -108,6 +108,10 @@ class Executor:
         m = re.fullmatch(r"(-?[\d.]+(?:[eE][-+]?\d+)?)(f64|f32)", t)
         if m:
             return VF.const(Fraction(m.group(1)))
+        m = re.fullmatch(r"(?:core::num::<impl )?(u8|u16|u32|u64|usize|i8|i16|i32|i64|isize)>?::(MIN|MAX)", t)
+        if m:
+            lo, hi = int_range(m.group(1))
+            return VInt(lo if m.group(2) == "MIN" else hi)
         if re.search(r"\bNAN$", t):
             return VF.NaN()
         if re.search(r"\bINFINITY$", t):
@@ -246,6 +250,8 @@ class Executor:
                 return VInt(smt.ite(v.some, smt.I1, smt.I0))
             if isinstance(v, VRes):
                 return VInt(smt.ite(v.ok, smt.I0, smt.I1))
+            if isinstance(v, VEnum):
+                return VInt(v.disc)
             raise ExecError(f"discriminant of {v!r}")
         if k == "tuple":
             return VTuple([self.operand(frame, o) for o in rv[1]])
@@ -331,10 +337,18 @@ class Executor:
             return VInt(smt.idiv(x, smt.const(2 ** y.val))) if y.is_const else _raise("symbolic shift")
         if op == "Shl":
             return VInt(smt.mul(x, smt.const(2 ** y.val))) if y.is_const else _raise("symbolic shift")
-        if op == "Div":
-            return VInt(smt.idiv(x, y))
-        if op == "Rem":
-            return VInt(smt.imod(x, y))
+        if op in ("Div", "Rem"):
+            # Rust integer division truncates toward zero (SMT div/mod are floor/Euclidean for a positive divisor)
+            if x.is_const and y.is_const and y.val != 0:
+                q = abs(x.val) // abs(y.val)
+                q = -q if (x.val < 0) != (y.val < 0) else q
+                return VInt(q if op == "Div" else x.val - y.val * q)
+            ax = smt.ite(smt.lt(x, smt.I0), smt.neg(x), x)
+            ay = smt.ite(smt.lt(y, smt.I0), smt.neg(y), y)
+            q = smt.idiv(ax, ay)
+            neg = smt.ne(smt.lt(x, smt.I0), smt.lt(y, smt.I0))
+            q = smt.ite(neg, smt.neg(q), q)
+            return VInt(q if op == "Div" else smt.sub(x, smt.mul(y, q)))
         if op in ("Lt", "Le", "Gt", "Ge", "Eq", "Ne"):
             f = {"Lt": smt.lt, "Le": smt.le, "Gt": smt.gt, "Ge": smt.ge, "Eq": smt.eq, "Ne": smt.ne}[op]
             return VBool(f(x, y))
@@ -615,6 +629,9 @@ class Executor:
 
     # ------------------------------------------------------------------ calls
     def call(self, callee, args, frame, depth):
+        if re.match(r"^(std::rt::panic_fmt|core::panicking::panic\w*|std::rt::begin_panic\w*|core::panicking::\w+)", callee):
+            self.oblige(TRUE, "panic reached: " + callee, frame.fn.name)
+            return _DIVERGE
         for pat, fnc in self.natives:
             m = pat.search(callee)
             if m:
@@ -675,6 +692,8 @@ def merge_val(c, a, b):
         raise ExecError("merge of different references")
     if isinstance(a, VRes) and isinstance(b, VRes):
         return VRes(smt.ite(c, a.ok, b.ok), merge_val(c, a.val, b.val), a.err if a.err is not None else b.err)
+    if isinstance(a, VEnum) and isinstance(b, VEnum) and a.disc == b.disc:
+        return a
     if isinstance(a, VUnit) and isinstance(b, VUnit):
         return a
     if isinstance(a, VOpaque) and isinstance(b, VOpaque):
